@@ -210,7 +210,12 @@ def run(chk, ctx):
                                rel=rel, node=f)
         # ---- Multistage-style label tables: counts reported are counts of the label tuple
         for r in runs:
-            uses_labels = bool(r.interp.label_atoms)
+            # label tables: per-instance tables whose entries flow into storage arguments of actions
+            uses_labels = False
+            for rec in r.interp.yields:
+                for v in ([rec.arg(4)] if rec.kind == "Forward" else [rec.arg(1)] if rec.kind in ("Copy", "Move") else []):
+                    if is_lin(v) and any(rec.state.entails_eq(v - Lin.sym(a)) == "yes" for a in r.interp.label_atoms):
+                        uses_labels = True
             if not uses_labels:
                 continue
             links = count_links(repo, cname)
